@@ -312,6 +312,12 @@ def run_case(case, ctx):
         sim_before = json.dumps(sim_json(), sort_keys=True, default=repr)
         try:
             oms_list, prop, rprop, rqs, dsjn, result = planning(network, equipment, data)
+        except ValueError as e:
+            if 'propagation band does not match' in str(e) and order is orders[0]:
+                # the generated line has amplifiers without any common band: not a line system, nothing to compare
+                ctx.reject(f'no common amplifier band on the generated line: {e}')
+                return
+            raise
         except DisjunctionError:
             # no disjoint combination: the same for every order of the batch
             ctx.count('planning_runs')
